@@ -48,6 +48,9 @@ MANIFEST = {
 
 
 def run(ctx):
+    from rules.common import require_fields
+    require_fields(ctx.program, 'dictutils.OrderedMultiDict', ['_map', 'root'])
+    require_fields(ctx.program, 'urlutils.OrderedMultiDict', ['_map', 'root'])
     for cls in SUBJECTS:
         omdstep.check_class(ctx, cls)
         mod = cls.split('.')[0]
